@@ -353,3 +353,42 @@ Proof.
     rewrite (Wd e He), (Wd e0 (or_introl eq_refl)). reflexivity. }
   rewrite U. reflexivity.
 Qed.
+
+(** ** a decider for the hypotheses (used by the check to see on which written files the theorem speaks) *)
+Definition i32b (z : Z) : bool := ((-2147483648 <=? z) && (z <=? 2147483647))%Z.
+Definition good_metab (m : Meta) : bool := clean_key (m_key m) && clean_cmtb (m_value m) && no 10 (m_key m) && no 10 (m_value m).
+Definition good_energyb (e : Energy) : bool :=
+  i32b (e_id e) && negb (match e_vals e with [] => true | _ => false end) && forallb (finite2 2) (e_vals e)
+  && clean_cmtb (e_cmt e) && no 10 (e_cmt e) && match e with EOut _ srv _ _ => srv_is_epb srv | _ => true end.
+Definition good_needb (o : option (list Qc)) : bool :=
+  match o with Some v => negb (match v with [] => true | _ => false end) && forallb (finite2 2) v | None => true end.
+Definition file_hypb (c : Components) : bool :=
+  negb (match c_meta c with [] => true | _ => false end) && negb (match c_data c with [] => true | _ => false end)
+  && forallb good_metab (c_meta c) && forallb good_energyb (c_data c)
+  && good_needb (nd_ACS (c_needs c)) && good_needb (nd_CAL (c_needs c)) && good_needb (nd_REF (c_needs c))
+  && forallb (fun e => (length (e_vals e) =? match c_data c with e0 :: _ => length (e_vals e0) | [] => 0%nat end)%nat) (c_data c).
+
+Lemma good_needb_ok o : good_needb o = true -> good_need o.
+Proof. destruct o as [v|]; [|intros _; exact I]. cbn. intros H. apply andb_true_iff in H as [H1 H2]. split; [|exact H2]. destruct v; [discriminate H1|discriminate]. Qed.
+
+Theorem components_file_roundtrip_b c : file_hypb c = true ->
+  parse_components (show_components c)
+  = of_res (normalize (mkComponents (c_meta c) (map rt_energy (c_data c)) (rt_needs (c_needs c)))).
+Proof.
+  unfold file_hypb. intros H. repeat (apply andb_true_iff in H as [H ?]).
+  apply (components_file_roundtrip c (match c_data c with e0 :: _ => length (e_vals e0) | [] => 0%nat end)).
+  - destruct (c_meta c); [cbn in *; discriminate|discriminate].
+  - destruct (c_data c); [cbn in *; discriminate|discriminate].
+  - apply Forall_forall. intros m Hm. match goal with K : forallb good_metab _ = true |- _ => rewrite forallb_forall in K; specialize (K m Hm) end.
+    unfold good_metab in *. repeat match goal with K : _ && _ = true |- _ => apply andb_true_iff in K as [K ?] end. repeat split; assumption.
+  - apply Forall_forall. intros e He. match goal with K : forallb good_energyb _ = true |- _ => rewrite forallb_forall in K; specialize (K e He) end.
+    unfold good_energyb in *. repeat match goal with K : _ && _ = true |- _ => apply andb_true_iff in K as [K ?] end.
+    repeat split; try assumption.
+    + match goal with K : i32b _ = true |- _ => unfold i32b in K; apply andb_true_iff in K as [K1 K2]; apply Z.leb_le in K1, K2 end. lia.
+    + match goal with K : i32b _ = true |- _ => unfold i32b in K; apply andb_true_iff in K as [K1 K2]; apply Z.leb_le in K1, K2 end. lia.
+    + destruct (e_vals e); [cbn in *; discriminate|discriminate].
+    + destruct e; try exact I. assumption.
+  - repeat split; apply good_needb_ok; assumption.
+  - apply Forall_forall. intros e He. match goal with K : forallb (fun _ => (_ =? _)%nat) _ = true |- _ => rewrite forallb_forall in K; specialize (K e He) end.
+    now apply Nat.eqb_eq.
+Qed.
